@@ -120,6 +120,88 @@ fn run_scored(steps: &[(usize, i64)], pop: Vec<i64>, four: bool) -> Option<Tree>
     Some(L(first))
 }
 
+/// populations of other collection types: sets (duplicate children collapse, so the size changes from step to step)
+/// and double-ended queues
+trait PopView: Send + Sync {
+    fn contents(&self) -> Vec<i64>;
+}
+impl PopView for std::collections::BTreeSet<i64> {
+    fn contents(&self) -> Vec<i64> {
+        self.iter().copied().collect()
+    }
+}
+impl PopView for std::collections::VecDeque<i64> {
+    fn contents(&self) -> Vec<i64> {
+        self.iter().copied().collect()
+    }
+}
+struct TProbe<P> {
+    p: Probe,
+    modulus: u64,
+    _m: std::marker::PhantomData<fn(&P)>,
+}
+impl<P> Composable for TProbe<P> {}
+impl<'p, P: PopView> Operator<&'p P> for TProbe<P> {
+    type Output = i64;
+    type Error = CmErr;
+    fn apply<R: rand::Rng + ?Sized>(&self, pop: &'p P, rng: &mut R) -> Result<i64, CmErr> {
+        let p = &self.p;
+        let k = p.calls.fetch_add(1, Ordering::SeqCst);
+        let (w1, w2) = (rng.next_u64(), rng.next_u64());
+        let addr_ok = std::ptr::eq(pop as *const P as *const u8, p.addr.load(Ordering::SeqCst) as *const u8);
+        let same = pop.contents() == *p.old.lock().unwrap();
+        let child = if self.modulus == 0 { (w1 >> 2) as i64 } else { ((w1 >> 2) % self.modulus) as i64 };
+        let failed = k == p.fail_at.load(Ordering::SeqCst);
+        p.log.lock().unwrap().push(tl![ab(addr_ok), ab(same), a(w1), a(w2), ab(failed), a(if failed { k } else { child })]);
+        if failed {
+            Err(CmErr(k))
+        } else {
+            Ok(child)
+        }
+    }
+}
+fn run_typed<P>(steps: &[(usize, i64)], pop: Vec<i64>, base: usize, modulus: u64, four: bool) -> Option<Tree>
+where
+    P: PopView + ec_core::population::Population<Individual = i64> + FromIterator<i64> + rayon::iter::FromParallelIterator<i64> + Send + Sync,
+{
+    let probe = Probe {
+        log: Arc::new(Mutex::new(vec![])),
+        calls: Arc::new(AtomicI64::new(0)),
+        fail_at: Arc::new(AtomicI64::new(-1)),
+        old: Arc::new(Mutex::new(vec![])),
+        addr: Arc::new(AtomicUsize::new(0)),
+    };
+    let population: P = pop.into_iter().collect();
+    let mut g = Generation::new(TProbe::<P> { p: probe.clone(), modulus, _m: std::marker::PhantomData }, population);
+    let mut outs: Vec<Tree> = vec![];
+    for (mode, fail_at) in steps {
+        *probe.old.lock().unwrap() = g.population().contents();
+        probe.log.lock().unwrap().clear();
+        probe.calls.store(0, Ordering::SeqCst);
+        probe.fail_at.store(*fail_at, Ordering::SeqCst);
+        probe.addr.store(g.population() as *const P as *const u8 as usize, Ordering::SeqCst);
+        let threads = mode - base;
+        let r = if threads == 0 {
+            g.serial_next()
+        } else {
+            let pool = rayon::ThreadPoolBuilder::new().num_threads(threads).build().ok()?;
+            pool.install(|| g.par_next())
+        };
+        let res = match r {
+            Ok(()) => tl![A(0)],
+            Err(e) => tl![A(1), a(e.0)],
+        };
+        let after: Vec<Tree> = g.population().contents().into_iter().map(a).collect();
+        let log = probe.log.lock().unwrap().clone();
+        outs.push(tl![res, L(after), L(log)]);
+    }
+    let mut first = outs.remove(0).list()?.to_vec();
+    if four {
+        first.push(L(outs));
+    }
+    Some(L(first))
+}
+
 fn run(input: &Tree) -> Option<Tree> {
     let l = input.list()?;
     if l.len() != 3 && l.len() != 4 {
@@ -138,6 +220,13 @@ fn run(input: &Tree) -> Option<Tree> {
     }
     if steps.iter().all(|(m, _)| (100..=164).contains(m)) {
         return run_scored(&steps, pop, l.len() == 4);
+    }
+    if steps.iter().all(|(m, _)| (200..=264).contains(m)) {
+        // an ordered set as population; children are drawn from {0, 1, 2}, so they collide
+        return run_typed::<std::collections::BTreeSet<i64>>(&steps, pop, 200, 3, l.len() == 4);
+    }
+    if steps.iter().all(|(m, _)| (300..=364).contains(m)) {
+        return run_typed::<std::collections::VecDeque<i64>>(&steps, pop, 300, 0, l.len() == 4);
     }
     if steps.iter().any(|(m, _)| *m > 64) {
         return None;
@@ -222,6 +311,21 @@ fn gen(tier: &str, rng: &mut Sm) -> Gen {
         }
         g.inputs.push(tl![A(0), L(pop.clone()), A(-1), L(vec![tl![A(0), A(-1)], tl![A(4), A(-1)], tl![A(0), a(size as i64 - 1)], tl![A(0), A(-1)]])]);
     }
-    g.meta("generator", format!("population sizes 0, 1, 2, 7, 64; serial_next and par_next under rayon pools of 1, 2, 3, 4, 8, 16 threads x {reps} repetitions; failure injected at every call position (sampled for size 64) and none; a child maker built through GenomeScorer with a one-off failing genome maker; histories of 5 steps of one Generation value (failing steps followed by successful ones, serial and parallel mixed)"));
+    // set-typed populations (children collide, the population shrinks and the next step must follow its new size)
+    // and double-ended queues, single steps and histories
+    for size in [0usize, 1, 4, 6] {
+        let pop: Vec<Tree> = (0..size as i64).map(|i| a(10 + 3 * i)).collect();
+        for base in [200usize, 300] {
+            for t in [0usize, 2, 8] {
+                for f in [-1i64, 0, size as i64 - 1] {
+                    g.inputs.push(tl![au(base + t), L(pop.clone()), a(f)]);
+                }
+            }
+            let b = |t: usize| au(base + t);
+            g.inputs.push(tl![b(0), L(pop.clone()), A(-1), L(vec![tl![b(0), A(-1)], tl![b(3), A(-1)], tl![b(0), A(0)], tl![b(0), A(-1)]])]);
+            g.inputs.push(tl![b(4), L(pop.clone()), A(-1), L(vec![tl![b(4), A(-1)], tl![b(0), A(-1)], tl![b(2), A(1)], tl![b(2), A(-1)]])]);
+        }
+    }
+    g.meta("generator", format!("population sizes 0, 1, 2, 7, 64; serial_next and par_next under rayon pools of 1, 2, 3, 4, 8, 16 threads x {reps} repetitions; failure injected at every call position (sampled for size 64) and none; a child maker built through GenomeScorer with a one-off failing genome maker; histories of 5 steps of one Generation value (failing steps followed by successful ones, serial and parallel mixed); BTreeSet populations whose children collide (the size changes between steps) and VecDeque populations"));
     g
 }
